@@ -918,9 +918,19 @@ func clearDetector() {
 		return
 	}
 
+	// The detector converts every message into a session (protocol, phantom
+	// and client address) before it looks at the operation, and drops messages
+	// for which that conversion fails. A clear request therefore has to carry
+	// well-formed placeholder session fields or it is never acted on: TCP and
+	// the unspecified IPv6 address, which the detector accepts without a
+	// client address.
 	op := pb.StationOperations_Clear
+	ipProto := pb.IPProto_Tcp
+	phantom := net.IPv6unspecified.String()
 	msg := &pb.StationToDetector{
 		Operation: &op,
+		Proto:     &ipProto,
+		PhantomIp: &phantom,
 	}
 
 	s2d, err := proto.Marshal(msg)
